@@ -254,9 +254,11 @@ def hist_shard(spec, emit):
         rng = rng_for("C18", seed, "hist", spec["idx"], rep)
         ops = []
         viols = []
+        past = []
         for k in range(int(rng.integers(2, 9))):
             name = str(rng.choice(det + ["GroupLasso"]))
             ps = spec_for(name, rng, seed, "h-%d-%d-%d" % (spec["idx"], rep, k))
+            past.append(ps)
             kind = str(rng.choice(["fit", "fit", "fit_twice", "path", "clone", "deepcopy_components"]))
             ops.append((kind, name, ps["storage"]))
             try:
@@ -283,6 +285,13 @@ def hist_shard(spec, emit):
         # probe
         pname = str(rng.choice(det))
         pps = spec_for(pname, rng, seed, "probe-%d-%d" % (spec["idx"], rep))
+        related = [q for q in past if q["estimator"] in det]
+        if related and rng.random() < 0.6:
+            # a probe that shares estimator class AND hyper-parameters with something fitted earlier (on other data):
+            # this is where state cached per (class, parameters) would leak
+            q = related[int(rng.integers(0, len(related)))]
+            pname = q["estimator"]
+            pps = dict(pps, estimator=pname, kwargs=dict(q["kwargs"]), target=q["target"], p=q["p"], storage=q["storage"])
         if pps["storage"] == "csc" and pname in ("GroupLasso",):
             pps["storage"] = "dense"
         rec = dict(id=cid, cell="history->probe|%s" % pname, digest=digest(cid, seed), count=dict(history_ops=len(ops), probes=1),
